@@ -6,4 +6,4 @@ NEXT TNext
 CHECK_DEADLOCK FALSE
 INVARIANT Accept
 INVARIANT ModelErrorOnMatchedPath
-CONSTRAINT Bound
+CONSTRAINT TBound
